@@ -81,3 +81,9 @@ theorem c13_interning_code_reviewed :
     Orca.Gen.ApiOutline.add_type = Orca.ApiOutlineSpec.add_type
     ∧ Orca.Gen.ApiOutline.add_func_type = Orca.ApiOutlineSpec.add_func_type :=
   ⟨rfl, rfl⟩
+
+/-- **The tie to the source (regenerated on every run).** `impl Hash for Types` and `impl PartialEq for Types` (src/ir/module/module_types.rs), word for word: the key of the interning map M5 transcribes. Deduplication is exact only if equality looks at every component of a type and at nothing else. -/
+theorem c13_type_key_code_reviewed :
+    Orca.Gen.ApiOutline.types_hash = Orca.ApiOutlineSpec.types_hash
+    ∧ Orca.Gen.ApiOutline.types_eq = Orca.ApiOutlineSpec.types_eq :=
+  ⟨rfl, rfl⟩
